@@ -145,15 +145,23 @@ func escapeTable(fd *eng.FuncDecl) (map[byte]int, *ast.SwitchStmt) {
 						if !ok {
 							return true
 						}
-						sel, ok := call.Fun.(*ast.SelectorExpr)
-						if !ok || sel.Sel.Name != "WriteByte" || len(call.Args) != 1 {
+						// the byte that is written: buf.WriteByte(x), or append(buf, x) onto a plain []byte
+						var emitted ast.Expr
+						if sel, ok := call.Fun.(*ast.SelectorExpr); ok && sel.Sel.Name == "WriteByte" && len(call.Args) == 1 {
+							emitted = call.Args[0]
+						} else if id, ok := call.Fun.(*ast.Ident); ok && id.Name == "append" && len(call.Args) == 2 && !call.Ellipsis.IsValid() {
+							if _, isB := info.Uses[id].(*types.Builtin); isB {
+								emitted = call.Args[1]
+							}
+						}
+						if emitted == nil {
 							return true
 						}
 						found = true
-						if atv, ok := info.Types[call.Args[0]]; ok && atv.Value != nil {
+						if atv, ok := info.Types[emitted]; ok && atv.Value != nil {
 							v, _ := constant.Int64Val(atv.Value)
 							val = int(v)
-						} else if types.ExprString(call.Args[0]) == types.ExprString(sw.Tag) {
+						} else if types.ExprString(emitted) == types.ExprString(sw.Tag) {
 							val = -1
 						} else {
 							val = -3
